@@ -911,9 +911,12 @@ func (tx *Transaction) ProcessRequestHeaders() *types.Interruption {
 
 func setAndReturnBodyLimitInterruption(tx *Transaction, status int) (*types.Interruption, int, error) {
 	tx.debugLogger.Warn().Msg("Disrupting transaction with body size above the configured limit (Action Reject)")
-	tx.interruption = &types.Interruption{
-		Status: status,
-		Action: "deny",
+	// An interruption already reported (by a rule) is final and must not be replaced.
+	if tx.interruption == nil {
+		tx.interruption = &types.Interruption{
+			Status: status,
+			Action: "deny",
+		}
 	}
 	return tx.interruption, 0, nil
 }
